@@ -13,7 +13,7 @@ MOD = __name__
 
 RULE_TEXT = (
     "Hypothesis project trees (depth <= 5) with absolute imports (and, in a third of the cases, imports of nested "
-    "external packages with externals included) x level_limit k in 0..depth+1 x imports written as 'import <name>' or as relative from-imports x module_path = root or a sub-directory, plus "
+    "external packages with externals included; a quarter with file exclusion patterns, a third of the externals-included cases with external exclusion patterns, the same in both scans) x level_limit k in 0..depth+1 x imports written as 'import <name>' or as relative from-imports x module_path = root or a sub-directory, plus "
     "an exhaustive family: a fixed 3-level project x every k in 1..4 x every module_path x externals in/excluded. Oracle: "
     "scan(level_limit=k) must equal the quotient of scan(level_limit=None) under truncation of every module name to k "
     "levels below module_path (modules = truncated names, a->b iff some pre-image import and a != b); then rules drawn "
@@ -41,8 +41,15 @@ def check_case(spec: dict) -> dict:
 
     with Project(root, files, spec["dirs"]) as pr:
         mp = pr.path(sub_rel) if sub_rel else pr.path()
-        full = scan_outcome(pr.path(), mp, exclude_external_libraries=not ext)
-        lim = scan_outcome(pr.path(), mp, level_limit=k, exclude_external_libraries=not ext)
+        # further options (round 9): the same file exclusion patterns / external exclusion patterns in both scans - the
+        # quotient law relates the two scans whatever else was asked for
+        more = {}
+        if spec.get("exclusions"):
+            more["exclusions"] = tuple(spec["exclusions"])
+        if ext and spec.get("external_exclusions"):
+            more["external_exclusions"] = tuple(spec["external_exclusions"])
+        full = scan_outcome(pr.path(), mp, exclude_external_libraries=not ext, **more)
+        lim = scan_outcome(pr.path(), mp, level_limit=k, exclude_external_libraries=not ext, **more)
     merged = crossing = False
     n_rules = 0
     if full[0] != "ok" or lim[0] != "ok":
@@ -90,7 +97,8 @@ def check_case(spec: dict) -> dict:
                 if a[0] != b[0]:
                     v("diagram-rule-verdict-not-preserved", f"k={k} module_path={sub} diagram={dg}: full -> {a}, flattened -> {b}")
     labels = [f"k={k}"] + (["relative-imports"] if spec.get("relative") else []) + ["sub-path" if sub_rel else "root-path", "externals" if ext else "internal-only",
-              "merging" if merged else "no-merge", f"rules={n_rules}"]
+              "merging" if merged else "no-merge", f"rules={n_rules}"] + (["file-exclusions"] if spec.get("exclusions") else []) + (
+                  ["external-exclusions"] if (ext and spec.get("external_exclusions")) else [])
     return {"violations": viols, "nontrivial": merged and crossing, "labels": labels}
 
 
@@ -114,6 +122,12 @@ def cases(draw):
     tree["k"] = draw(st.integers(0, max(1, depth) + 1))
     tree["include_external"] = ext
     tree["relative"] = draw(st.integers(0, 2)) == 0
+    if draw(st.integers(0, 3)) == 0:
+        names = sorted({p.rsplit("/", 1)[-1] for p in list(tree["pyfiles"]) + list(tree["dirs"])})
+        if names:
+            tree["exclusions"] = ["*" + n for n in draw(st.lists(st.sampled_from(names), min_size=1, max_size=2, unique=True))]
+    if ext and draw(st.integers(0, 2)) == 0:
+        tree["external_exclusions"] = draw(st.lists(st.sampled_from(["os*", "xml.etree*", "*handlers", "a.b*", "proj_x"]), min_size=1, max_size=2, unique=True))
     keep = len(sub.split(".")) + tree["k"]
     flat = sorted({M.truncate(m, keep) for m in mods})
     rules = []
